@@ -11,6 +11,7 @@ import FrourosModel.Perm
 import FrourosModel.Batch
 import FrourosModel.Config
 import FrourosModel.Misc
+import FrourosModel.Tests2
 namespace Frouros
 open Wire
 
@@ -98,6 +99,34 @@ def cmdPval (args : List String) : String :=
       | "approximate-spec" => Perm.pApproximateSpec b m mt
       | _ => 0.0/0.0
     "x" ++ hexOfFloat v
+  | _ => "bad-op"
+
+/-- `t2 chi2 <corr> <k> o1 e1 o2 e2 …` | `t2 mwu n m xs…` | `t2 welch n m xs…` | `t2 kuiper n m xs…` | `t2 fwd pop|get <has_alt 0/1> <n_other>` -/
+def cmdTests2 (args : List String) : String :=
+  match args with
+  | "chi2" :: corr :: rest =>
+    let ns := parseNats rest
+    let rec pairs (l : List Nat) (fuel : Nat) : List (Nat × Nat) :=
+      match fuel, l with
+      | fuel + 1, a :: b :: tl => (a, b) :: pairs tl fuel
+      | _, _ => []
+    "x" ++ hexOfFloat (Tests2.chi2Stat (α := Float) (corr == "1") (pairs ns ns.length))
+  | "mwu" :: n :: _m :: rest =>
+    let (r, t) := splitAt' (parseFloats rest) n.toNat!
+    toString (Tests2.mwuTwice r t)
+  | "welch" :: n :: _m :: rest =>
+    let (r, t) := splitAt' (parseFloats rest) n.toNat!
+    s!"x{hexOfFloat (Tests2.welchT r t)} x{hexOfFloat (Tests2.welchDf r t)}"
+  | "kuiper" :: n :: _m :: rest =>
+    let (r, t) := splitAt' (parseFloats rest) n.toNat!
+    s!"{Tests2.kuiperV r t} {Tests2.ksD r t} {KS.hPlus r t} {KS.hMinus r t}"
+  | ["fwd", mode, hasAlt, nOther] =>
+    let kw : List (String × String) := (if hasAlt == "1" then [("alternative", "less")] else []) ++
+      (List.range nOther.toNat!).map (fun i => (s!"opt{i}", "v"))
+    let r := if mode == "pop" then Tests2.forwardPop kw "two-sided" else Tests2.forwardGet kw "two-sided"
+    match r with
+    | .typeError => "err:Type"
+    | .call kws => "call " ++ ",".intercalate (kws.map (fun p => p.1 ++ "=" ++ p.2))
   | _ => "bad-op"
 
 def errStr (e : Option Err) : String := match e with | none => "ok" | some e => "err:" ++ e.name
